@@ -77,7 +77,10 @@ def run_one(mods, ref, variables, limit, ctx, outname='out', canary=False, sched
                     # a history in one process: another strain (other variables, other limit) is built and run first,
                     # and a third Colander is built (not run) in between
                     what = 'Colander(variables=%r, limit_level=%r).strain(); Colander(variables=%r); %s' % (prior[0], prior[1], prior[2], what)
-                    Colander(plotfile='plt', limit_level=prior[1], output='out_prior', variables=list(prior[0])).strain()
+                    # (prior[3] == 'same': the first strain writes to the very output path of the second - a re-run over the
+                    # leftovers of an earlier run: every file of the output must be what the second strain alone writes)
+                    same = len(prior) > 3 and prior[3] == 'same'
+                    Colander(plotfile='plt', limit_level=prior[1], output=outname if same else 'out_prior', variables=list(prior[0])).strain()
                     Colander(plotfile='plt', output='out_unused', variables=list(prior[2]))
                 Colander(plotfile='plt', limit_level=limit, output=outname, variables=list(variables)).strain()
         except SystemExit as e:
@@ -166,7 +169,8 @@ def run_case(case):
                     viol[sig] = {'signature': sig, 'what': obl.failed[0][0], 'variables': variables, 'limit': limit, 'cli': True}
 
     # histories: two strains in one process
-    for variables, limit, prior in [(sels[1 % len(sels)], None, (sels[-1], 0, ['all'])), (['all'], max(0, ref.nlev - 2), (sels[0], None, sels[-1]))]:
+    for variables, limit, prior in [(sels[1 % len(sels)], None, (sels[-1], 0, ['all'])), (['all'], max(0, ref.nlev - 2), (sels[0], None, sels[-1])),
+                                    (sels[1 % len(sels)], None, (['all'], None, sels[0], 'same')), (['all'], None, (sels[1 % len(sels)], None, sels[0], 'same'))]:
         def hpath(ctx, variables=variables, limit=limit, prior=prior):
             return run_one(mods, ref, variables, limit, ctx, prior=prior)
         results, exhaustive, stats = core.explore(hpath, max_paths=8)
@@ -175,7 +179,7 @@ def run_case(case):
         for ctx, (obl, fs) in results:
             res.add_obl(obl)
             if obl.failed and 'C05/history' not in viol:
-                viol['C05/history'] = {'signature': 'C05/history', 'what': obl.failed[0][0], 'variables': variables, 'limit': limit, 'prior': [list(prior[0]), prior[1], list(prior[2])]}
+                viol['C05/history'] = {'signature': 'C05/history', 'what': obl.failed[0][0], 'variables': variables, 'limit': limit, 'prior': [list(prior[0]), prior[1], list(prior[2])] + list(prior[3:])}
 
     def canary(ctx):
         return run_one(mods, ref, sels[1], None, ctx, canary=True)
@@ -195,10 +199,12 @@ def run_case(case):
         run = ("from amr_kitchen.colander.colander import Colander\n"
                "Colander(plotfile=os.path.join(IN, 'plt'), limit_level=%r, output=OUT, variables=%r).strain()\n" % (v['limit'], v['variables']))
         if v.get('prior'):
-            pv, pl, pu = v['prior']
+            pv, pl, pu = v['prior'][:3]
             run = ("from amr_kitchen.colander.colander import Colander\n"
                    "Colander(plotfile=os.path.join(IN, 'plt'), limit_level=%r, output=os.path.join(IN, 'out_prior'), variables=%r).strain()\n"
                    "Colander(plotfile=os.path.join(IN, 'plt'), output=os.path.join(IN, 'out_unused'), variables=%r)\n" % (pl, pv, pu)) + run.split('\n', 1)[1]
+            if 'same' in v['prior'][3:]:
+                run = run.replace("output=os.path.join(IN, 'out_prior')", 'output=OUT')
         if v.get('cli'):
             run = ("import sys\nfrom amr_kitchen.colander import cli\nsys.argv = ['colander', os.path.join(IN, 'plt')] + %r\ncli.main()\n"
                    % (cli_argv(v['variables'], v['limit'], '@OUT@')[2:],)).replace("'@OUT@'", 'OUT')
